@@ -499,8 +499,13 @@ void cmi_event_add_waiter(const uint64_t key, struct cmb_process *pp)
 bool cmi_event_remove_waiter(const uint64_t key, const struct cmb_process *pp)
 {
     cmb_assert_release(event_queue != NULL);
-    cmb_assert_release(cmi_hashheap_count(event_queue) > 0u);
-    cmb_assert_release(cmi_hashheap_is_enqueued(event_queue, key));
+    if (!cmi_hashheap_is_enqueued(event_queue, key)) {
+        /*
+         * The event has already been executed or cancelled. Its waiters were
+         * taken off the list then, their wakeup calls are on the way.
+         */
+        return false;
+    }
 
     struct event_peek *tmp = (struct event_peek *)cmi_hashheap_item(event_queue, key);
     struct cmi_slist_head *whead = &(tmp->waiters);
